@@ -272,3 +272,542 @@ Proof.
 Qed.
 
 End QueueFrame.
+
+(* ---------- rule(): what it does to the abstract state ---------- *)
+Lemma set_start_end_exact new e p old ni :
+  set_start_end (new ++ QStart e p :: old) (length old) ni = Some (new ++ QStart ni p :: old).
+Proof.
+  unfold set_start_end. rewrite app_length. cbn [length].
+  destruct (Nat.ltb (length old) (length new + S (length old))) eqn:L; [|apply Nat.ltb_ge in L; lia].
+  replace (length new + S (length old) - 1 - length old) with (length new) by lia.
+  rewrite nth_error_app2 by lia. rewrite Nat.sub_diag. cbn [nth_error]. f_equal.
+  rewrite firstn_app, firstn_all, Nat.sub_diag. cbn [firstn]. rewrite app_nil_r. f_equal.
+  replace (S (length new)) with (length new + 1) by lia. rewrite skipn_app.
+  rewrite skipn_all2 by lia. replace (length new + 1 - length new) with 1 by lia. reflexivity.
+Qed.
+
+Lemma emits_abs s : remits (abs s) = emits s.
+Proof. reflexivity. Qed.
+
+(* the attempt-tracking and call-stack steps of rule() are invisible through abs *)
+Lemma rule_ok_abs rule fr s' :
+  (forall k, rule_ok rule fr s' = RPanic k -> k <> PkInternal) ->
+  abs_res (rule_ok rule fr s') =
+  if emits s' then
+    match set_start_end (queue s') (rf_index fr) (length (queue s')) with
+    | None => RRPanic PkInternal
+    | Some q => RROk (with_queue (abs s') (QEnd (rf_index fr) rule None (pos s') :: q))
+    end
+  else RROk (abs s').
+Proof.
+  intros NP. unfold rule_ok in *.
+  set (sa := if lk_eqb (lookahead s') LNeg then track s' rule (rf_pos fr) (rf_pai fr) (rf_nai fr) (rf_attempts fr) else s') in *.
+  assert (T : same_but_attempts s' sa) by (unfold sa; destruct (lk_eqb (lookahead s') LNeg); [apply track_same|split; reflexivity]).
+  assert (Em : emits sa = emits s') by (unfold emits; rewrite (t_la _ _ T), (t_at _ _ T); reflexivity).
+  rewrite Em in *. rewrite (t_queue _ _ T), (t_pos _ _ T) in *.
+  pose proof (abs_same_attempts _ _ T) as A.
+  destruct (emits s').
+  - destruct (set_start_end (queue s') (rf_index fr) (length (queue s'))) as [q|]; [|reflexivity].
+    set (sb := set_queue sa (QEnd (rf_index fr) rule None (pos s') :: q)) in *.
+    assert (AB : abs sb = with_queue (abs s') (QEnd (rf_index fr) rule None (pos s') :: q)) by (rewrite <- A; reflexivity).
+    change (pa_enabled sb) with (pa_enabled sa) in *.
+    destruct (pa_enabled sa).
+    + destruct (try_add_rule_to_stack sb rule (rf_csn fr) (rf_max fr)) as [y|] eqn:Ey; cbn [lift] in *.
+      * apply try_add_rule_to_stack_core in Ey. cbn [abs_res]. rewrite (abs_same_core _ _ Ey), AB. reflexivity.
+      * exfalso. eapply NP; reflexivity.
+    + cbn [abs_res]. rewrite AB. reflexivity.
+  - destruct (pa_enabled sa).
+    + destruct (try_add_rule_to_stack sa rule (rf_csn fr) (rf_max fr)) as [y|] eqn:Ey; cbn [lift] in *.
+      * apply try_add_rule_to_stack_core in Ey. cbn [abs_res]. rewrite (abs_same_core _ _ Ey), A. reflexivity.
+      * exfalso. eapply NP; reflexivity.
+    + cbn [abs_res]. rewrite A. reflexivity.
+Qed.
+
+Lemma rule_err_abs rule fr s' :
+  (forall k, rule_err rule fr s' = RPanic k -> k <> PkInternal) ->
+  abs_res (rule_err rule fr s') =
+  RRErr (if emits s' then with_queue (abs s') (vtruncate (rf_index fr) (queue s')) else abs s').
+Proof.
+  intros NP. unfold rule_err in *.
+  assert (FIN : forall y, abs y = abs s' ->
+            abs_res (RErr (if emits y then set_queue y (vtruncate (rf_index fr) (queue y)) else y)) =
+            RRErr (if emits s' then with_queue (abs s') (vtruncate (rf_index fr) (queue s')) else abs s')).
+  { intros y A. cbn [abs_res]. f_equal. rewrite <- (emits_abs y), <- (emits_abs s'), A.
+    destruct (remits (abs s')); [|exact A].
+    change (abs (set_queue y (vtruncate (rf_index fr) (queue y)))) with (with_queue (abs y) (vtruncate (rf_index fr) (r_queue (abs y)))).
+    rewrite A. reflexivity. }
+  destruct (negb (lk_eqb (lookahead s') LNeg)).
+  - set (t := track s' rule (rf_pos fr) (rf_pai fr) (rf_nai fr) (rf_attempts fr)) in *.
+    pose proof (track_same s' rule (rf_pos fr) (rf_pai fr) (rf_nai fr) (rf_attempts fr)) as T. fold t in T.
+    pose proof (abs_same_attempts _ _ T) as A.
+    destruct (pa_enabled t).
+    + destruct (try_add_rule_to_stack t rule (rf_csn fr) (rf_max fr)) as [y|] eqn:Ey.
+      * apply try_add_rule_to_stack_core in Ey. apply FIN. rewrite (abs_same_core _ _ Ey). exact A.
+      * exfalso. eapply NP; reflexivity.
+    + apply FIN. exact A.
+  - apply FIN. reflexivity.
+Qed.
+
+Lemma vtruncate_start {A} (new : list A) x q : vtruncate (length q) (new ++ x :: q) = q.
+Proof.
+  change (x :: q) with ([x] ++ q). rewrite app_assoc. apply vtruncate_app. reflexivity.
+Qed.
+
+Lemma firstn_body {A} (new : list A) x q : firstn (length (new ++ x :: q) - S (length q)) (new ++ x :: q) = new.
+Proof.
+  rewrite app_length. cbn [length]. replace (length new + S (length q) - S (length q)) with (length new + 0) by lia.
+  rewrite firstn_app_2. cbn [firstn]. apply app_nil_r.
+Qed.
+
+(* ---------- the refinement theorem ---------- *)
+Lemma inc_call_nolimit s : limit s = None -> inc_call s = Some s.
+Proof. intros L. unfold inc_call, limit_reached. rewrite L. reflexivity. Qed.
+
+Section Refinement.
+Variable cfg : config.
+Variable E : env.
+
+Theorem exec_refines_tagleak : forall fuel p s a,
+  wf s -> Inv (stack s) a -> limit s = None ->
+  abs_res (exec cfg E fuel p s) = rexec_gen TagLeak cfg E fuel p (abs s).
+Proof.
+  induction fuel as [|fuel IH]; intros p s a W I L; [reflexivity|].
+  pose proof (inc_call_nolimit s L) as IC.
+  (* a sub-run: the induction hypothesis together with the frame facts of exec_post *)
+  assert (SUB : forall q s0 a0, wf s0 -> Inv (stack s0) a0 -> limit s0 = None ->
+            abs_res (exec cfg E fuel q s0) = rexec_gen TagLeak cfg E fuel q (abs s0) /\
+            match exec cfg E fuel q s0 with
+            | ROk s' | RErr s' =>
+                frame s0 s' /\ wf s' /\ limit s' = None /\ exists a', Inv (stack s') a' /\ snaps a' = snaps a0
+            | RPanic k => k <> PkInternal
+            | ROutOfFuel => True
+            end).
+  { intros q s0 a0 W0 I0 L0. split; [now apply (IH q s0 a0)|].
+    pose proof (exec_post cfg E fuel q s0 a0 W0 I0) as P.
+    destruct (exec cfg E fuel q s0) as [s'|s'|k|]; cbn [post] in P; auto;
+      destruct P as (F & W' & a' & I' & S'); (split; [exact F|split; [exact W'|split; [rewrite (f_lim _ _ F); exact L0|eauto]]]). }
+  destruct p as [o|rule p|p|p|p|p|positive p|a0 p|p|p|p1 p2|p1 p2|p1 p2|f]; cbn [exec rexec_gen]; try rewrite IC.
+  - (* PPrim *) apply exec_prim_abs.
+  - (* PRule *)
+    destruct (rule_enter s) as [fr s2] eqn:Er.
+    assert (Hfr : fr = fst (rule_enter s)) by now rewrite Er. assert (Hs2 : s2 = snd (rule_enter s)) by now rewrite Er.
+    destruct (rule_enter_spec s) as (_ & Ri & _ & _ & Q & SQ). rewrite <- Hs2 in SQ, Q. rewrite <- Hfr in Ri.
+    assert (W2 : wf s2) by (unfold wf in *; rewrite (q_pos _ _ SQ), (q_input _ _ SQ); exact W).
+    assert (I2 : Inv (stack s2) a) by (rewrite (q_stack _ _ SQ); exact I).
+    assert (L2 : limit s2 = None) by (rewrite (q_lim _ _ SQ); exact L).
+    assert (A2 : abs s2 = if emits s then with_queue (abs s) (QStart 0 (r_pos (abs s)) :: r_queue (abs s)) else abs s).
+    { unfold abs at 1. rewrite (q_input _ _ SQ), (q_pos _ _ SQ), (q_stack _ _ SQ), (q_la _ _ SQ), (q_at _ _ SQ), Q.
+      destruct (emits s); reflexivity. }
+    destruct (SUB p s2 a W2 I2 L2) as (R & P).
+    pose proof (rule_ok_post rule s) as POK. pose proof (rule_err_post rule s) as PERR.
+    rewrite <- Hs2, <- Hfr in POK, PERR.
+    pose proof (rexec_qext TagLeak cfg E false (fun H => False_ind _ (Bool.diff_false_true H)) fuel p (abs s2)
+                  (fun H => False_ind _ (Bool.diff_false_true H))) as QX.
+    rewrite <- R in QX. rewrite emits_abs.
+    assert (EM : forall s', frame s2 s' -> emits s' = emits s).
+    { intros s' F. unfold emits. rewrite (f_la _ _ F), (f_at _ _ F), (q_la _ _ SQ), (q_at _ _ SQ). reflexivity. }
+    destruct (emits s) eqn:Em; rewrite <- A2, <- R.
+    + (* the rule emits its pair *)
+      destruct (exec cfg E fuel p s2) as [s'|s'|k|] eqn:Ex; cbn [abs_res] in *; try reflexivity.
+      * destruct P as (F & W' & L' & a' & I' & S'). specialize (POK s' a a' W' F I' S').
+        rewrite rule_ok_abs by (intros k Hk; rewrite Hk in POK; exact POK).
+        rewrite (EM s' F). cbn [r_queue abs] in QX. rewrite Q in QX.
+        destruct (qext_start _ _ _ _ _ QX) as (new & Eq).
+        rewrite Ri. rewrite Eq at 1. rewrite set_start_end_exact.
+        unfold close_rule. cbn [r_queue r_pos abs]. fold (abs s').
+        assert (B : firstn (length (queue s') - S (length (queue s))) (queue s') = new) by (rewrite Eq; apply firstn_body).
+        rewrite B. reflexivity.
+      * destruct P as (F & W' & L' & a' & I' & S'). specialize (PERR s' a a' W' F I' S').
+        rewrite rule_err_abs by (intros k Hk; rewrite Hk in PERR; exact PERR).
+        rewrite (EM s' F). cbn [r_queue abs] in QX. rewrite Q in QX.
+        destruct (qext_start _ _ _ _ _ QX) as (new & Eq).
+        rewrite Ri, Eq, vtruncate_start. reflexivity.
+    + (* silent: under look-ahead or in an atomic rule *)
+      destruct (exec cfg E fuel p s2) as [s'|s'|k|] eqn:Ex; cbn [abs_res] in *; try reflexivity.
+      * destruct P as (F & W' & L' & a' & I' & S'). specialize (POK s' a a' W' F I' S').
+        rewrite rule_ok_abs by (intros k Hk; rewrite Hk in POK; exact POK).
+        rewrite (EM s' F). reflexivity.
+      * destruct P as (F & W' & L' & a' & I' & S'). specialize (PERR s' a a' W' F I' S').
+        rewrite rule_err_abs by (intros k Hk; rewrite Hk in PERR; exact PERR).
+        rewrite (EM s' F). reflexivity.
+  - (* PSequence *)
+    assert (I1 : Inv (stack (checkpoint s)) (ssnapshot a)) by (cbn; now apply inv_snapshot).
+    destruct (SUB p (checkpoint s) (ssnapshot a) W I1 L) as (R & P).
+    change (abs (checkpoint s)) with (abs s) in R. rewrite <- R.
+    destruct (exec cfg E fuel p (checkpoint s)) as [s'|s'|k|] eqn:Ex; cbn [abs_res]; try reflexivity.
+    + destruct P as (F & W' & L' & a' & I' & S'). unfold checkpoint_ok.
+      destruct (inv_clear I') as (st & Ec & I3). rewrite Ec. cbn [option_map lift abs_res]. f_equal.
+      apply abs_set_stack. rewrite (inv_cache _ _ I3), (inv_cache _ _ I'). reflexivity.
+    + destruct P as (F & W' & L' & a' & I' & S'). unfold restore_st. cbn [stack set_queue set_pos].
+      destruct (inv_restore I') as (st & Er & I3). rewrite Er. cbn [option_map lift abs_res]. f_equal.
+      unfold abs, with_queue. cbn.
+      rewrite (f_input _ _ F), (f_la _ _ F), (f_at _ _ F). cbn [input lookahead atomicity checkpoint set_stack].
+      rewrite (inv_cache _ _ I3). unfold srestore. rewrite S'. cbn [snaps ssnapshot]. rewrite <- (inv_cache _ _ I). reflexivity.
+  - (* PRepeat *) now apply (IH (PRepeatLoop p) s a).
+  - (* PRepeatLoop *)
+    destruct (SUB p s a W I L) as (R & P). rewrite <- R.
+    destruct (exec cfg E fuel p s) as [s'|s'|k|] eqn:Ex; cbn [abs_res]; try reflexivity.
+    destruct P as (F & W' & L' & a' & I' & S'). now apply (IH (PRepeatLoop p) s' a').
+  - (* POptional *)
+    destruct (SUB p s a W I L) as (R & P). rewrite <- R.
+    destruct (exec cfg E fuel p s) as [s'|s'|k|]; reflexivity.
+  - (* PLookahead *)
+    set (s2 := set_lookahead s (enter_lookahead positive (lookahead s))).
+    assert (W2 : wf (checkpoint s2)) by exact W.
+    assert (I2 : Inv (stack (checkpoint s2)) (ssnapshot a)) by (cbn; now apply inv_snapshot).
+    assert (L2 : limit (checkpoint s2) = None) by exact L.
+    assert (N2 : lookahead (checkpoint s2) <> LNone) by (cbn; destruct positive, (lookahead s); cbn; congruence).
+    destruct (SUB p (checkpoint s2) (ssnapshot a) W2 I2 L2) as (R & P).
+    change (abs (checkpoint s2)) with (with_look (abs s) (enter_lookahead positive (r_look (abs s)))) in R. rewrite <- R.
+    assert (FIN : forall x, (exec cfg E fuel p (checkpoint s2) = ROk x \/ exec cfg E fuel p (checkpoint s2) = RErr x) ->
+              frame (checkpoint s2) x -> (exists a', Inv (stack x) a' /\ snaps a' = snaps (ssnapshot a)) ->
+              exists y, restore_st (set_lookahead (set_pos x (pos s)) (lookahead s)) = Some y /\ abs y = abs s).
+    { intros x Hx F (a' & I' & S').
+      pose proof (exec_quiet cfg E fuel p (checkpoint s2) (ssnapshot a) x W2 I2 N2 Hx) as Qx.
+      unfold restore_st. cbn [stack set_lookahead set_pos].
+      destruct (inv_restore I') as (st & Er & I3). rewrite Er. cbn [option_map]. eexists. split; [reflexivity|].
+      unfold abs. cbn. rewrite (f_input _ _ F), (f_at _ _ F), Qx. cbn [input atomicity queue checkpoint set_stack set_lookahead s2].
+      rewrite (inv_cache _ _ I3). unfold srestore. rewrite S'. cbn [snaps ssnapshot]. rewrite <- (inv_cache _ _ I). reflexivity. }
+    destruct (exec cfg E fuel p (checkpoint s2)) as [x|x|k|] eqn:Ex; cbn [abs_res]; try reflexivity.
+    + destruct P as (F & W' & L' & P'). destruct (FIN x (or_introl eq_refl) F P') as (y & Ey & Ay).
+      rewrite Ey. cbn [lift]. destruct positive; cbn [abs_res]; rewrite Ay; reflexivity.
+    + destruct P as (F & W' & L' & P'). destruct (FIN x (or_intror eq_refl) F P') as (y & Ey & Ay).
+      rewrite Ey. cbn [lift]. destruct positive; cbn [abs_res]; rewrite Ay; reflexivity.
+  - (* PAtomic *)
+    destruct (atom_eqb (atomicity s) a0) eqn:T; cbn [negb].
+    + apply atom_eqb_true in T.
+      assert (A0 : with_atom (abs s) a0 = abs s) by (rewrite <- T; reflexivity). rewrite A0.
+      destruct (SUB p s a W I L) as (R & P). rewrite <- R.
+      destruct (exec cfg E fuel p s) as [s'|s'|k|]; cbn [abs_res]; try reflexivity;
+        destruct P as (F & _); f_equal; unfold abs, with_atom; cbn; rewrite (f_at _ _ F); reflexivity.
+    + destruct (SUB p (set_atomicity s a0) a W I L) as (R & P).
+      change (abs (set_atomicity s a0)) with (with_atom (abs s) a0) in R. rewrite <- R.
+      destruct (exec cfg E fuel p (set_atomicity s a0)) as [s'|s'|k|]; reflexivity.
+  - (* PStackPush *)
+    destruct (SUB p s a W I L) as (R & P). rewrite <- R.
+    destruct (exec cfg E fuel p s) as [s'|s'|k|]; cbn [abs_res]; try reflexivity.
+    destruct P as (F & _). pose proof (f_pos _ _ F) as Hp.
+    destruct (Nat.ltb (pos s') (pos s)) eqn:Lt; [apply Nat.ltb_lt in Lt; lia|]. reflexivity.
+  - (* PRestoreOnErr *)
+    assert (I1 : Inv (stack (checkpoint s)) (ssnapshot a)) by (cbn; now apply inv_snapshot).
+    destruct (SUB p (checkpoint s) (ssnapshot a) W I1 L) as (R & P).
+    change (abs (checkpoint s)) with (abs s) in R. rewrite <- R.
+    destruct (exec cfg E fuel p (checkpoint s)) as [s'|s'|k|] eqn:Ex; cbn [abs_res]; try reflexivity.
+    + destruct P as (F & W' & L' & a' & I' & S'). unfold checkpoint_ok.
+      destruct (inv_clear I') as (st & Ec & I3). rewrite Ec. cbn [option_map lift abs_res]. f_equal.
+      apply abs_set_stack. rewrite (inv_cache _ _ I3), (inv_cache _ _ I'). reflexivity.
+    + destruct P as (F & W' & L' & a' & I' & S'). unfold restore_st.
+      destruct (inv_restore I') as (st & Er & I3). rewrite Er. cbn [option_map lift abs_res]. f_equal.
+      unfold abs, with_stack. cbn.
+      rewrite (inv_cache _ _ I3). unfold srestore. rewrite S'. cbn [snaps ssnapshot]. rewrite <- (inv_cache _ _ I). reflexivity.
+  - (* PAndThen *)
+    destruct (SUB p1 s a W I L) as (R & P). rewrite <- R.
+    destruct (exec cfg E fuel p1 s) as [s'|s'|k|] eqn:Ex; cbn [abs_res]; try reflexivity.
+    destruct P as (F & W' & L' & a' & I' & S'). now apply (IH p2 s' a').
+  - (* POrElse *)
+    destruct (SUB p1 s a W I L) as (R & P). rewrite <- R.
+    destruct (exec cfg E fuel p1 s) as [s'|s'|k|] eqn:Ex; cbn [abs_res]; try reflexivity.
+    destruct P as (F & W' & L' & a' & I' & S'). now apply (IH p2 s' a').
+  - (* PIfNonAtomic *)
+    change (r_atom (abs s)) with (atomicity s). destruct (atom_eqb (atomicity s) NonAtomic); now apply (IH _ s a).
+  - (* PCall *) destruct (E f) as [q|]; [now apply (IH q s a)|reflexivity].
+Qed.
+
+End Refinement.
+
+(* ---------- the fully documented reading is refuted ----------
+   rule(2, "a") ; sequence(tag_node(0) ; fail)  on "a": the documentation says the failed
+   sequence returns the state it was given; the code returns it with tag 0 on the End of rule 2. *)
+Definition ref_tag_witness : prog :=
+  PAndThen (PRule 2 (PPrim (MMatchString [97%N])))
+           (PSequence (PAndThen (PPrim (MTagNode 0)) (PPrim MErr))).
+Definition ref_witness_cfg : config := {| memchr := true; fixed3 := true; fixedlim := true |}.
+
+Example exec_refines_ref_refuted_witness :
+  let s := init [97%N] None false in let E : env := fun _ => None in
+  abs_res (exec ref_witness_cfg E 10 ref_tag_witness s) <> rexec ref_witness_cfg E 10 ref_tag_witness (abs s) /\
+  abs_res (exec ref_witness_cfg E 10 ref_tag_witness s) = rexec_gen TagLeak ref_witness_cfg E 10 ref_tag_witness (abs s) /\
+  rexec ref_witness_cfg E 10 ref_tag_witness (abs s) =
+    RRErr (with_queue (with_pos (rinit [97%N]) 1) [QEnd 0 2 None 1; QStart 1 0]).
+Proof. vm_compute. split; [discriminate|split; reflexivity]. Qed.
+
+Definition exec_refines_ref_statement : Prop :=
+  forall cfg E fuel p s a, wf s -> Inv (stack s) a -> limit s = None ->
+    abs_res (exec cfg E fuel p s) = rexec cfg E fuel p (abs s).
+
+Theorem exec_refines_ref_refuted : ~ exec_refines_ref_statement.
+Proof.
+  intros H.
+  assert (W : wf (init [97%N] None false)) by (unfold wf; cbn; lia).
+  specialize (H ref_witness_cfg (fun _ => None) 10 ref_tag_witness (init [97%N] None false) (@sempty (list byte)) W
+                (@inv_empty (list byte)) eq_refl).
+  revert H. apply exec_refines_ref_refuted_witness.
+Qed.
+
+(* ---------- the two readings of `sequence` ---------- *)
+Section Readings.
+Variable cfg : config.
+Variable E : env.
+
+(* (a) they coincide exactly on programs that never call tag_node *)
+Theorem readings_agree_notag : notag_env E -> forall fuel p r, notag p = true ->
+  rexec_gen Documented cfg E fuel p r = rexec_gen TagLeak cfg E fuel p r.
+Proof.
+  intros HE. induction fuel as [|fuel IH]; intros p r NT; [reflexivity|].
+  destruct p as [o|rule p|p|p|p|p|positive p|a0 p|p|p|p1 p2|p1 p2|p1 p2|f]; cbn [rexec_gen]; cbn [notag] in NT.
+  - reflexivity.
+  - destruct (remits r); rewrite IH by exact NT; reflexivity.
+  - rewrite (IH p r NT).
+    pose proof (rexec_qext TagLeak cfg E true (fun _ => HE) fuel p r (fun _ => NT)) as QX.
+    destruct (rexec_gen TagLeak cfg E fuel p r) as [r'|r'|k|]; try reflexivity. f_equal.
+    destruct (qext_strict _ _ QX) as (new & ->). rewrite vtruncate_app by reflexivity. destruct r; reflexivity.
+  - now apply IH.
+  - rewrite (IH p r NT). destruct (rexec_gen TagLeak cfg E fuel p r); try reflexivity. now apply IH.
+  - rewrite (IH p r NT). reflexivity.
+  - rewrite IH by exact NT. reflexivity.
+  - rewrite IH by exact NT. reflexivity.
+  - rewrite (IH p r NT). reflexivity.
+  - rewrite (IH p r NT). reflexivity.
+  - apply andb_true_iff in NT. destruct NT as [N1 N2]. rewrite (IH p1 r N1).
+    destruct (rexec_gen TagLeak cfg E fuel p1 r); try reflexivity. now apply IH.
+  - apply andb_true_iff in NT. destruct NT as [N1 N2]. rewrite (IH p1 r N1).
+    destruct (rexec_gen TagLeak cfg E fuel p1 r); try reflexivity. now apply IH.
+  - apply andb_true_iff in NT. destruct NT as [N1 N2]. destruct (atom_eqb (r_atom r) NonAtomic); now apply IH.
+  - destruct (E f) as [q|] eqn:Ef; [|reflexivity]. apply IH. eapply HE; eauto.
+Qed.
+
+(* (b) on all programs they coincide up to the node tags, whatever tags the start states carry *)
+Ltac req_solve :=
+  unfold req in *;
+  cbn [r_input r_pos r_queue r_stack r_look r_atom with_pos with_queue with_stack with_look with_atom] in *;
+  intuition congruence.
+
+Lemma req_refl r : req r r. Proof. req_solve. Qed.
+Lemma req_sym r1 r2 : req r1 r2 -> req r2 r1. Proof. req_solve. Qed.
+Lemma req_trans r1 r2 r3 : req r1 r2 -> req r2 r3 -> req r1 r3. Proof. req_solve. Qed.
+
+Lemma rmoved_req r1 r2 x : req r1 r2 -> rreq (rmoved r1 x) (rmoved r2 x).
+Proof. intros H. destruct x; cbn [rmoved rreq]; auto. req_solve. Qed.
+
+Lemma rprim_req o r1 r2 : req r1 r2 -> rreq (rprim cfg o r1) (rprim cfg o r2).
+Proof.
+  intros H. pose proof H as (Hi & Hp & Hq & Hs & Hl & Ha).
+  destruct o; cbn [rprim]; cbv zeta; rewrite ?Hi, ?Hp, ?Hs, ?Hl; try (apply rmoved_req; exact H); try exact H.
+  - destruct (skip_until _ _ _ _); cbn [rreq]; auto. req_solve.
+  - destruct (Nat.eqb _ _); exact H.
+  - destruct (Nat.eqb _ _); exact H.
+  - cbn [rreq]. req_solve.
+  - destruct (r_stack r2); [reflexivity|apply rmoved_req; exact H].
+  - destruct (r_stack r2); [reflexivity|]. apply rmoved_req. req_solve.
+  - destruct (r_stack r2); cbn [rreq]; [exact H|req_solve].
+  - destruct (match_all _ _ _); cbn [rreq]; [req_solve|exact H].
+  - destruct (rmatch_pop _ _ _) as [[rest p] ok]. destruct ok; cbn [rreq]; req_solve.
+  - unfold rpeek_slice. rewrite Hs, Hi, Hp. destruct (constrain_idxs _ _ _) as [[x y]|]; [|exact H].
+    destruct (Nat.leb y x); [exact H|]. cbv zeta. destruct (match_all _ _ _); cbn [rreq]; [req_solve|exact H].
+  - destruct (r_look r2) eqn:El2; try exact H. revert Hq.
+    destruct (r_queue r1) as [|[e1 p1|s1 rl1 tg1 p1] q1] eqn:E1, (r_queue r2) as [|[e2 p2|s2 rl2 tg2 p2] q2] eqn:E2;
+      cbn [map untag_tok]; intros Hq; try discriminate Hq; try exact H.
+    injection Hq as -> -> -> Hq. cbn [rreq]. unfold req. cbn. repeat split; auto; congruence.
+Qed.
+
+Lemma close_rule_req rule q0 q0' p0 q' q'' pe :
+  map untag_tok q0 = map untag_tok q0' -> map untag_tok q' = map untag_tok q'' ->
+  map untag_tok (close_rule rule q0 p0 q' pe) = map untag_tok (close_rule rule q0' p0 q'' pe).
+Proof.
+  intros H0 H1.
+  assert (L0 : length q0 = length q0') by (apply (f_equal (@length _)) in H0; now rewrite !map_length in H0).
+  assert (L1 : length q' = length q'') by (apply (f_equal (@length _)) in H1; now rewrite !map_length in H1).
+  unfold close_rule. cbv zeta. cbn [map untag_tok]. rewrite !map_app. cbn [map untag_tok].
+  rewrite <- !firstn_map. rewrite H0, H1, L0, L1. reflexivity.
+Qed.
+
+Lemma seq_err_req rd r q' : qext false (r_queue r) q' ->
+  req (match rd with Documented => r | TagLeak => with_queue r (vtruncate (length (r_queue r)) q') end) r.
+Proof.
+  intros QX. destruct rd; [apply req_refl|].
+  pose proof (qext_untag _ _ _ QX) as U. unfold req. cbn. repeat split; auto.
+Qed.
+
+Theorem rexec_req rd1 rd2 : forall fuel p r1 r2, req r1 r2 ->
+  rreq (rexec_gen rd1 cfg E fuel p r1) (rexec_gen rd2 cfg E fuel p r2).
+Proof.
+  induction fuel as [|fuel IH]; intros p r1 r2 H; [exact I|].
+  pose proof H as (Hi & Hp & Hq & Hs & Hl & Ha).
+  destruct p as [o|rule p|p|p|p|p|positive p|a0 p|p|p|p1 p2|p1 p2|p1 p2|f]; cbn [rexec_gen].
+  - now apply rprim_req.
+  - (* PRule *)
+    assert (Em : remits r1 = remits r2) by (unfold remits; now rewrite Hl, Ha). rewrite Em.
+    destruct (remits r2); [|now apply IH].
+    assert (H2 : req (with_queue r1 (QStart 0 (r_pos r1) :: r_queue r1)) (with_queue r2 (QStart 0 (r_pos r2) :: r_queue r2))).
+    { unfold req. cbn. rewrite Hp, Hq. repeat split; auto. }
+    pose proof (IH p _ _ H2) as H1.
+    destruct (rexec_gen rd1 cfg E fuel p _) as [x|x|k|], (rexec_gen rd2 cfg E fuel p _) as [y|y|k'|];
+      cbn [rreq] in *; try contradiction; auto.
+    + destruct H1 as (Xi & Xp & Xq & Xs & Xl & Xa). unfold req. cbn. rewrite Xp, Hp.
+      repeat split; auto. now apply close_rule_req.
+    + destruct H1 as (Xi & Xp & Xq & Xs & Xl & Xa). unfold req. cbn. repeat split; auto.
+  - (* PSequence *)
+    pose proof (IH p r1 r2 H) as H1.
+    pose proof (rexec_qext rd1 cfg E false (fun h => False_ind _ (Bool.diff_false_true h)) fuel p r1
+                  (fun h => False_ind _ (Bool.diff_false_true h))) as Q1.
+    pose proof (rexec_qext rd2 cfg E false (fun h => False_ind _ (Bool.diff_false_true h)) fuel p r2
+                  (fun h => False_ind _ (Bool.diff_false_true h))) as Q2.
+    destruct (rexec_gen rd1 cfg E fuel p r1) as [x|x|k|], (rexec_gen rd2 cfg E fuel p r2) as [y|y|k'|];
+      cbn [rreq] in *; try contradiction; auto.
+    eapply req_trans; [apply seq_err_req; exact Q1|]. eapply req_trans; [exact H|]. apply req_sym, seq_err_req. exact Q2.
+  - (* PRepeat *) now apply IH.
+  - (* PRepeatLoop *)
+    pose proof (IH p r1 r2 H) as H1.
+    destruct (rexec_gen rd1 cfg E fuel p r1) as [x|x|k|], (rexec_gen rd2 cfg E fuel p r2) as [y|y|k'|];
+      cbn [rreq] in *; try contradiction; auto.
+  - (* POptional *)
+    pose proof (IH p r1 r2 H) as H1.
+    destruct (rexec_gen rd1 cfg E fuel p r1) as [x|x|k|], (rexec_gen rd2 cfg E fuel p r2) as [y|y|k'|];
+      cbn [rreq] in *; try contradiction; auto.
+  - (* PLookahead *)
+    assert (H2 : req (with_look r1 (enter_lookahead positive (r_look r1))) (with_look r2 (enter_lookahead positive (r_look r2))))
+      by (rewrite Hl; req_solve).
+    pose proof (IH p _ _ H2) as H1.
+    destruct (rexec_gen rd1 cfg E fuel p _) as [x|x|k|], (rexec_gen rd2 cfg E fuel p _) as [y|y|k'|];
+      cbn [rreq] in *; try contradiction; auto; destruct positive; exact H.
+  - (* PAtomic *)
+    assert (H2 : req (with_atom r1 a0) (with_atom r2 a0)) by req_solve.
+    pose proof (IH p _ _ H2) as H1.
+    destruct (rexec_gen rd1 cfg E fuel p _) as [x|x|k|], (rexec_gen rd2 cfg E fuel p _) as [y|y|k'|];
+      cbn [rreq] in *; try contradiction; auto; rewrite Ha; req_solve.
+  - (* PStackPush *)
+    pose proof (IH p r1 r2 H) as H1.
+    destruct (rexec_gen rd1 cfg E fuel p r1) as [x|x|k|], (rexec_gen rd2 cfg E fuel p r2) as [y|y|k'|];
+      cbn [rreq] in *; try contradiction; auto.
+    destruct H1 as (Xi & Xp & Xq & Xs & Xl & Xa). rewrite Xi, Xp, Xs, Hp. unfold req. cbn. repeat split; auto.
+  - (* PRestoreOnErr *)
+    pose proof (IH p r1 r2 H) as H1.
+    destruct (rexec_gen rd1 cfg E fuel p r1) as [x|x|k|], (rexec_gen rd2 cfg E fuel p r2) as [y|y|k'|];
+      cbn [rreq] in *; try contradiction; auto. rewrite Hs. req_solve.
+  - (* PAndThen *)
+    pose proof (IH p1 r1 r2 H) as H1.
+    destruct (rexec_gen rd1 cfg E fuel p1 r1) as [x|x|k|], (rexec_gen rd2 cfg E fuel p1 r2) as [y|y|k'|];
+      cbn [rreq] in *; try contradiction; auto.
+  - (* POrElse *)
+    pose proof (IH p1 r1 r2 H) as H1.
+    destruct (rexec_gen rd1 cfg E fuel p1 r1) as [x|x|k|], (rexec_gen rd2 cfg E fuel p1 r2) as [y|y|k'|];
+      cbn [rreq] in *; try contradiction; auto.
+  - (* PIfNonAtomic *) rewrite Ha. destruct (atom_eqb (r_atom r2) NonAtomic); now apply IH.
+  - (* PCall *) destruct (E f) as [q|]; [now apply IH|reflexivity].
+Qed.
+
+End Readings.
+
+(* ---------- corollaries: the code against the documented reading ---------- *)
+(* exact, for every program that never calls tag_node (closures included) *)
+Theorem exec_refines_ref_notag cfg E fuel p s a :
+  notag_env E -> notag p = true -> wf s -> Inv (stack s) a -> limit s = None ->
+  abs_res (exec cfg E fuel p s) = rexec cfg E fuel p (abs s).
+Proof.
+  intros HE NT W I L. unfold rexec. rewrite (readings_agree_notag cfg E HE fuel p (abs s) NT).
+  now apply exec_refines_tagleak with (a := a).
+Qed.
+
+(* every program, up to the node tags of the tokens *)
+Theorem exec_refines_ref_untag cfg E fuel p s a :
+  wf s -> Inv (stack s) a -> limit s = None ->
+  rreq (abs_res (exec cfg E fuel p s)) (rexec cfg E fuel p (abs s)).
+Proof.
+  intros W I L. rewrite (exec_refines_tagleak cfg E fuel p s a W I L). apply rexec_req. apply req_refl.
+Qed.
+
+(* from the initial state of a parse (no call limit, either setting of the error-detail switch) *)
+Lemma abs_init inp lim detail : abs (init inp lim detail) = rinit inp.
+Proof. reflexivity. Qed.
+
+Corollary exec_refines_tagleak_init cfg E fuel p inp detail :
+  abs_res (run_state cfg E fuel p inp None detail) = rexec_gen TagLeak cfg E fuel p (rinit inp).
+Proof.
+  unfold run_state. destruct (init_wf_inv inp None detail) as [W I].
+  rewrite (exec_refines_tagleak cfg E fuel p _ _ W I eq_refl). reflexivity.
+Qed.
+
+Corollary exec_refines_ref_init cfg E fuel p inp detail :
+  notag_env E -> notag p = true ->
+  abs_res (run_state cfg E fuel p inp None detail) = rexec cfg E fuel p (rinit inp).
+Proof.
+  intros HE NT. unfold run_state. destruct (init_wf_inv inp None detail) as [W I].
+  rewrite (exec_refines_ref_notag cfg E fuel p _ _ HE NT W I eq_refl). reflexivity.
+Qed.
+
+Corollary exec_refines_ref_untag_init cfg E fuel p inp detail :
+  rreq (abs_res (run_state cfg E fuel p inp None detail)) (rexec cfg E fuel p (rinit inp)).
+Proof.
+  unfold run_state. destruct (init_wf_inv inp None detail) as [W I].
+  apply (exec_refines_ref_untag cfg E fuel p _ _ W I eq_refl).
+Qed.
+
+(* with and without the memchr-accelerated search (hypotheses of Utf8c.exec_cfg_eq): the
+   reference outcome does not depend on the feature, and the code built WITH memchr (repaired
+   three-string arm) refines the reference that uses the plain loop *)
+Theorem ref_independent_of_memchr cfg1 cfg2 E fuel p s a :
+  cfg_ok cfg1 -> cfg_ok cfg2 -> env_valid E -> prog_valid p ->
+  wf s -> Inv (stack s) a -> utf8_ok s -> limit s = None ->
+  rexec_gen TagLeak cfg1 E fuel p (abs s) = rexec_gen TagLeak cfg2 E fuel p (abs s).
+Proof.
+  intros H1 H2 HE Vp W I U L.
+  rewrite <- (exec_refines_tagleak cfg1 E fuel p s a W I L), <- (exec_refines_tagleak cfg2 E fuel p s a W I L).
+  f_equal. now apply (exec_cfg_eq cfg1 cfg2 E H1 H2 HE fuel p s a).
+Qed.
+
+Theorem ref_independent_of_memchr_doc cfg1 cfg2 E fuel p s a :
+  cfg_ok cfg1 -> cfg_ok cfg2 -> env_valid E -> prog_valid p -> notag_env E -> notag p = true ->
+  wf s -> Inv (stack s) a -> utf8_ok s -> limit s = None ->
+  rexec cfg1 E fuel p (abs s) = rexec cfg2 E fuel p (abs s).
+Proof.
+  intros H1 H2 HE Vp NE NT W I U L. unfold rexec. rewrite !(readings_agree_notag _ E NE fuel p (abs s) NT).
+  now apply ref_independent_of_memchr with (a := a).
+Qed.
+
+Corollary exec_memchr_refines_plain_ref E fuel p s a l1 l2 f2 :
+  env_valid E -> prog_valid p -> wf s -> Inv (stack s) a -> utf8_ok s -> limit s = None ->
+  abs_res (exec {| memchr := true; fixed3 := true; fixedlim := l1 |} E fuel p s) =
+  rexec_gen TagLeak {| memchr := false; fixed3 := f2; fixedlim := l2 |} E fuel p (abs s).
+Proof.
+  intros HE Vp W I U L. rewrite (exec_memchr_eq_basic E fuel p s a l1 l2 f2 HE Vp W I U).
+  now apply exec_refines_tagleak with (a := a).
+Qed.
+
+(* ---------- non-vacuity ----------
+   repeat( sequence( stack_push( rule(1, "a") ; tag_node(7) ) ; "b" ) )  on "ababac":
+   two full iterations, then a third one in which rule 1 matches, emits, is tagged and pushed
+   before "b" fails: the sequence rolls everything back and the repeat succeeds.
+   Both interpreters (the code with error detail and the memchr feature on) agree, also with the
+   fully documented reading, and the outcome has tokens, tags, a stack and a moved position.   *)
+Definition ref_example_prog : prog :=
+  PRepeat (PSequence (PAndThen
+     (PStackPush (PAndThen (PRule 1 (PPrim (MMatchString [97%N]))) (PPrim (MTagNode 7))))
+     (PPrim (MMatchString [98%N])))).
+Definition ref_example_input : list byte := [97; 98; 97; 98; 97; 99]%N.
+
+Example ref_example_agree :
+  let E : env := fun _ => None in
+  let x := exec ref_witness_cfg E 30 ref_example_prog (init ref_example_input None true) in
+  abs_res x = rexec ref_witness_cfg E 30 ref_example_prog (rinit ref_example_input) /\
+  abs_res x = rexec_gen TagLeak ref_witness_cfg E 30 ref_example_prog (rinit ref_example_input) /\
+  abs_res x = RROk {| r_input := ref_example_input; r_pos := 4;
+                      r_queue := [QEnd 2 1 (Some 7) 3; QStart 3 2; QEnd 0 1 (Some 7) 1; QStart 1 0];
+                      r_stack := [[97%N]; [97%N]]; r_look := LNone; r_atom := NonAtomic |} /\
+  (* the model really went through snapshots and bookkeeping that abs forgets *)
+  match x with ROk s => popped (stack s) = [] /\ lengths (stack s) = [] /\ max_position s = 5 /\ expected s = [TSens [98%N]] | _ => False end.
+Proof. vm_compute. repeat split; reflexivity. Qed.
+
+(* the failing third iteration alone, from the state after two iterations: position, tokens
+   and stack had really moved before the roll-back *)
+Example ref_example_third_iteration :
+  let E : env := fun _ => None in
+  let body := PAndThen (PStackPush (PAndThen (PRule 1 (PPrim (MMatchString [97%N]))) (PPrim (MTagNode 7))))
+                       (PPrim (MMatchString [98%N])) in
+  let r := {| r_input := ref_example_input; r_pos := 4;
+              r_queue := [QEnd 2 1 (Some 7) 3; QStart 3 2; QEnd 0 1 (Some 7) 1; QStart 1 0];
+              r_stack := [[97%N]; [97%N]]; r_look := LNone; r_atom := NonAtomic |} in
+  match rexec ref_witness_cfg E 10 body r with
+  | RRErr r' => r_pos r' = 5 /\ length (r_queue r') = 6 /\ length (r_stack r') = 3
+  | _ => False
+  end /\ rexec ref_witness_cfg E 11 (PSequence body) r = RRErr r.
+Proof. vm_compute. repeat split; reflexivity. Qed.
